@@ -615,6 +615,7 @@ func main() {
 		}()
 	}
 	wg.Wait()
+	evals.Add(int64(fidelity(rep)))
 	if n := len(txharness.Orphan.Fields()); n > 0 {
 		rep.Inconclusive(fmt.Sprintf("%d resolver invocations carried no request log in their context (harness assumption broken)", n))
 	}
@@ -661,6 +662,81 @@ func rhNames() []string {
 	sort.Strings(n)
 	return n
 }
+
+// fidelity: whatever encoding carries the request, the string a client sends as a variable or as a
+// literal is the string the resolver gets (query { echo(s:) } answers its argument). The strings
+// hold characters that are special in the encodings themselves ('+', '%XX', '&', ';', '=').
+func fidelity(rep *ev.Reporter) int {
+	srv := buildServer(rhSettings[0], transportOrders[0], 0)
+	values := []string{"1+1=2", "100%41", "a%2Bb", "path/%7Bid%7D C++", "x&y=z;w", "%", "+", "é%C3%A9", "a b"}
+	n := 0
+	for _, v := range values {
+		lit, _ := json.Marshal(v)
+		for _, enc := range []string{"get", "post-json", "form-json", "multipart", "graphql-raw", "get-literal", "post-literal"} {
+			var r *http.Request
+			varBody, _ := json.Marshal(map[string]any{"query": "query($s: String) { echo(s: $s) }", "variables": map[string]any{"s": v}})
+			litQuery := "{ echo(s: " + string(lit) + ") }"
+			switch enc {
+			case "get":
+				q := url.Values{}
+				q.Set("query", "query($s: String) { echo(s: $s) }")
+				vb, _ := json.Marshal(map[string]any{"s": v})
+				q.Set("variables", string(vb))
+				r = httptest.NewRequest("GET", "/graphql?"+q.Encode(), nil)
+			case "get-literal":
+				q := url.Values{}
+				q.Set("query", litQuery)
+				r = httptest.NewRequest("GET", "/graphql?"+q.Encode(), nil)
+			case "post-json":
+				r = httptest.NewRequest("POST", "/graphql", bytes.NewReader(varBody))
+				r.Header.Set("Content-Type", "application/json")
+			case "post-literal":
+				b, _ := json.Marshal(map[string]any{"query": litQuery})
+				r = httptest.NewRequest("POST", "/graphql", bytes.NewReader(b))
+				r.Header.Set("Content-Type", "application/json")
+			case "form-json":
+				r = httptest.NewRequest("POST", "/graphql", bytes.NewReader(varBody))
+				r.Header.Set("Content-Type", "application/x-www-form-urlencoded")
+			case "multipart":
+				var buf bytes.Buffer
+				mw := multipart.NewWriter(&buf)
+				mw.WriteField("operations", string(varBody))
+				mw.WriteField("map", "{}")
+				mw.Close()
+				r = httptest.NewRequest("POST", "/graphql", &buf)
+				r.Header.Set("Content-Type", mw.FormDataContentType())
+			case "graphql-raw":
+				r = httptest.NewRequest("POST", "/graphql", strings.NewReader(litQuery))
+				r.Header.Set("Content-Type", "application/graphql")
+			}
+			log := &txharness.ReqLog{ID: "fidelity|" + enc + "|" + v, Oneshot: true}
+			r = r.WithContext(txharness.With(context.Background(), log))
+			rec := httptest.NewRecorder()
+			srv.ServeHTTP(rec, r)
+			n++
+			rep.Count("fidelity_requests", 1)
+			rep.Count("fidelity_encoding_"+enc, 1)
+			body, _ := sjson.Parse(rec.Body.Bytes())
+			var got *sjson.Value
+			if body != nil && body.Kind == sjson.Object && body.Get("data") != nil && body.Get("data").Kind == sjson.Object {
+				got = body.Get("data").Get("echo")
+			}
+			if rec.Code != 200 || got == nil || got.Kind != sjson.String || got.Str != v {
+				sig := "string-changed-in-transit:" + enc
+				if enc == "form-json" && formJSONUndecodable(v) {
+					sig = "urlencoded-form-body-not-decoded"
+				}
+				rep.Violate(sig, map[string]any{"why": fmt.Sprintf("the client sent the string %q (%s), the resolver's echo is %s (status %d)", v, enc, clip(rec.Body.String()), rec.Code),
+					"encoding": enc, "value": v})
+			}
+		}
+	}
+	return n
+}
+
+// formJSONUndecodable: the recorded finding about UrlEncodedForm (it url-decodes a JSON body as a
+// whole, or not at all) also changes strings inside such a body that contain '+' or '%XX'.
+func formJSONUndecodable(v string) bool { return strings.ContainsAny(v, "+%") }
 
 func doReplay(rep *ev.Reporter, path string, cases []*kase) int {
 	b, err := os.ReadFile(path)
